@@ -909,7 +909,7 @@ func (l *lexer) lexComment() error {
 		}
 		if i > 0 && l.src[p+i-1] == '{' {
 			nested++
-		} else if i < len(l.src)-p && l.src[p+i+1] == '}' {
+		} else if i < len(l.src)-p-1 && l.src[p+i+1] == '}' {
 			nested--
 			p++
 		}
